@@ -162,6 +162,15 @@ func c07Specs(rnd *Rand, tier string) []*c07Spec {
 	for i := 0; i < 3; i++ {
 		specs = append(specs, &c07Spec{Name: fmt.Sprintf("views%d", i), Root: "main.sysl", Files: map[string]string{"main.sysl": genViewsModel(rnd)}})
 	}
+	// foreign specifications imported into the compilation (the importers run inside the compiler)
+	specs = append(specs,
+		&c07Spec{Name: "swagger-import", Root: "main.sysl", Files: map[string]string{
+			"main.sysl":    "import greeter.yaml as Greeter ~swagger\nimport api2.yaml as Api2 ~swagger\n\nClient:\n    Hello:\n        Greeter <- GET /greeting\n",
+			"greeter.yaml": "swagger: \"2.0\"\ninfo:\n  title: Greeter\n  version: \"1\"\npaths:\n  /greeting:\n    get:\n      responses:\n        200:\n          description: a plain string body\n          schema:\n            type: string\n  /other:\n    get:\n      responses:\n        200:\n          description: another\n          schema:\n            type: string\n",
+			"api2.yaml":    c19Swagger2Doc}},
+		&c07Spec{Name: "openapi3-import", Root: "main.sysl", Files: map[string]string{
+			"main.sysl": "import pets.yaml as Pets ~openapi3\n\nClient:\n    Hello:\n        Pets <- GET /owners\n",
+			"pets.yaml": c19OpenAPIDoc}})
 	// a model imported in serialised form next to source text (statements the grammar cannot write)
 	specs = append(specs, &c07Spec{Name: "textpb-import", Root: "main.sysl", Files: map[string]string{
 		"main.sysl":  "import dep.textpb\n\nApp:\n    Ep:\n        Missing <- Nope\n    Ep2:\n        Gone <- Nope\n",
@@ -194,6 +203,20 @@ func runC07(res *Result, tier string, rnd *Rand, replay string) {
 	if !inner {
 		bg.Add(1)
 		go func() { defer bg.Done(); c07Race(res, tier) }()
+	}
+	// ---- under the race detector: concurrent compilations on a cold process first (caches that
+	// are filled lazily race only while they are still being filled) ----
+	if inner {
+		var cw sync.WaitGroup
+		for g := 0; g < 24 && g < len(specs); g++ {
+			cw.Add(1)
+			go func(g int) {
+				defer cw.Done()
+				_ = specs[(g*7)%len(specs)].compile()
+			}(g)
+		}
+		cw.Wait()
+		res.Count("race-run:cold-concurrent-start")
 	}
 	// ---- sequential baseline and sequential determinism ----
 	base := make([]c07Out, len(specs))
